@@ -73,7 +73,7 @@ def compile_match_expression(compiler, expr, root, subject, clauses):
                         kw_defaults=[],
                         defaults=[],
                     ),
-                    body=guard.stmts + [asty.Return(guard.expr, value=guard.expr)],
+                    body=guard.stmts + [asty.Return(guard, value=guard.force_expr)],
                     decorator_list=[],
                     **({"type_params": []} if PY3_12 else {}),
                 )
